@@ -232,6 +232,12 @@ def check_c05(ctx, line, code, payload_text, msg, determinism=True):
         # an unrelated decode in between (fills/evicts the caches), then the same frame again
         Message(Packet.from_file(DTM, "045  I --- 01:145038 --:------ 01:145038 30C9 006 0007D00107D1"))
         Message(Packet.from_file(DTM, "045 RP --- 13:049798 18:006402 --:------ 3EF1 007 00007B007B00FF"))
+        # ... and the same frame under another sequence number (parsers must not leak state between packets)
+        alt = line[:7] + ("034" if line[7:10] == "---" else "---") + line[10:]
+        try:
+            Message(Packet.from_file(DTM, alt))
+        except Exception:  # noqa: BLE001
+            pass
         try:
             p2 = Message(Packet.from_file(DTM, line)).payload
         except Exception as e:  # noqa: BLE001
@@ -459,6 +465,12 @@ def replay_decode(item):
     from ramses_tx.packet import Packet
 
     prm = item["params"]
+    if prm["h"] == "conc":
+        for head, pay in prm["frames"]:
+            r = replay_decode({"params": {"h": "win", "head": head, "pay": pay, "off": 0, "w": 0}, "cex": {"w": ""}, "label": item["label"]})
+            if r["reproduced"]:
+                return r
+        return {"reproduced": False, "observed": "all frames of the chunk decode consistently", "signature": None}
     line, code, payload = concrete_line(item)
     via = prm.get("via", "file")
     st, why, msg = _plain_decode(line, via)
